@@ -13,128 +13,288 @@ import (
 // ---- C16.P5: a pooled connection leaves the pool closed ------------------------------------------------------------
 
 func runC16P5(c *Ctx) {
+	isPool := func(v ssa.Value) bool {
+		if v == nil {
+			return false
+		}
+		mt, ok := v.Type().Underlying().(*types.Map)
+		return ok && holdsClientConn(mt.Elem(), 0)
+	}
+	isSweepStep := func(j ssa.Instruction) bool {
+		r, ok := j.(*ssa.Range)
+		return ok && isPool(r.X)
+	}
+	// in scope: the deletions the janitor performs — in a function that ranges over the pool, or in what such a function
+	// runs synchronously per entry (a helper, a method, a closure handed to a locking wrapper)
+	var scope []*ssa.Function
+	c16resolve(c)
+	for _, f := range c.fnsWhere("", func(f *ssa.Function) bool { return isRepoFn(f) && c16grpcPkg(rootPkg(f)) }) {
+		if !fnHas(f, isSweepStep) {
+			continue
+		}
+		for _, g := range c16syncRegion(f) {
+			if !c16inFns(scope, g) {
+				scope = append(scope, g)
+			}
+		}
+	}
 	n := 0
-	for _, f := range c.fnsWhere("proxy", func(*ssa.Function) bool { return true }) {
+	for _, f := range scope {
 		eachInstr(f, func(i ssa.Instruction) {
 			cc := callCommon(i)
-			if cc == nil || calleeName(cc) != "builtin.delete" || len(cc.Args) != 2 {
+			if cc == nil || calleeName(cc) != "builtin.delete" || len(cc.Args) != 2 || !isPool(cc.Args[0]) {
 				return
 			}
-			mt, ok := cc.Args[0].Type().Underlying().(*types.Map)
-			if !ok || !holdsClientConn(mt.Elem(), 0) {
-				return
-			}
-			// only the janitor (a function that ranges over the pool) is in scope
-			ranged := false
-			eachInstr(f, func(j ssa.Instruction) {
-				if r, ok := j.(*ssa.Range); ok {
-					if rm, ok := r.X.Type().Underlying().(*types.Map); ok && types.Identical(rm, mt) {
-						ranged = true
-					}
-				}
-			})
-			if !ranged {
+			if _, isCall := i.(*ssa.Call); !isCall {
 				return
 			}
 			n++
 			// on every path of the iteration that reaches the delete, the connection is either known to be shut down already
 			// (an edge with state == connectivity.Shutdown) or is closed (directly, by a helper, or by a goroutine started
-			// on the way)
-			closes := func(j ssa.Instruction) bool {
-				jc := callCommon(j)
-				return jc != nil && strings.HasSuffix(calleeName(jc), "grpc.ClientConn).Close")
-			}
-			closing := func(j ssa.Instruction) bool {
-				if closes(j) {
-					return true
-				}
-				if g, ok := j.(*ssa.Go); ok {
-					for _, fn := range append(funcsOf(g.Call.Value), g.Call.StaticCallee()) {
-						if fn != nil && mayExec(fn, closes, 0) {
-							return true
-						}
-					}
-				}
-				if call, ok := j.(*ssa.Call); ok {
-					if sc := call.Call.StaticCallee(); sc != nil && isRepoFn(sc) && mayExec(unwrap(sc), closes, 1) {
-						return true
-					}
-				}
-				return false
-			}
-			isShutdownEdge := func(pred, succ *ssa.BasicBlock) bool {
-				if len(pred.Succs) != 2 || len(pred.Instrs) == 0 {
-					return false
-				}
-				iff, ok := pred.Instrs[len(pred.Instrs)-1].(*ssa.If)
-				if !ok {
-					return false
-				}
-				for _, ft := range appendCondFacts(nil, iff.Cond, pred.Succs[0] == succ, 0) {
-					b, ok := ft.Cond.(*ssa.BinOp)
-					if !ok || !(b.Op == token.EQL && ft.Truth || b.Op == token.NEQ && !ft.Truth) {
-						continue
-					}
-					for _, side := range []ssa.Value{b.X, b.Y} {
-						if k, isK := side.(*ssa.Const); isK && strings.HasSuffix(typeStr(k.Type()), "connectivity.State") && k.Int64() == 4 {
-							return true
-						}
-					}
-				}
-				return false
-			}
-			// the iteration starts at the Next of the range over the pool
-			var start ssa.Instruction
-			eachInstr(f, func(j ssa.Instruction) {
-				if nx, ok := j.(*ssa.Next); ok && dominatesInstr(j, i) {
-					if r, ok := nx.Iter.(*ssa.Range); ok {
-						if rm, ok := r.X.Type().Underlying().(*types.Map); ok && types.Identical(rm, mt) {
-							start = j
-						}
-					}
-				}
-			})
-			shutdown, closed := false, false
-			if start != nil {
-				type item struct {
-					b   *ssa.BasicBlock
-					idx int
-				}
-				open := false
-				seenB := map[*ssa.BasicBlock]bool{}
-				stack := []item{{start.Block(), instrIndex(start) + 1}}
-				for len(stack) > 0 && !open {
-					it := stack[len(stack)-1]
-					stack = stack[:len(stack)-1]
-					blocked := false
-					for k := it.idx; k < len(it.b.Instrs); k++ {
-						if it.b.Instrs[k] == i {
-							open = true
-							break
-						}
-						if closing(it.b.Instrs[k]) {
-							blocked = true
-							break
-						}
-					}
-					if blocked || open {
-						continue
-					}
-					for _, sx := range it.b.Succs {
-						if isShutdownEdge(it.b, sx) || seenB[sx] || sx == start.Block() {
-							continue
-						}
-						seenB[sx] = true
-						stack = append(stack, item{sx, 0})
-					}
-				}
-				closed = !open
-			}
-			c.check("C16.P5", fnKey(f)+"|connection removed from the pool is closed", i.Pos(), shutdown || closed,
+			// on the way); where the delete sits in a helper, the path goes on at the helper's call sites
+			c.check("C16.P5", fnKey(f)+"|connection removed from the pool is closed", i.Pos(), !c16p5open(i, isPool, 0),
 				"the janitor drops a pooled connection without closing it and without knowing that it is already shut down (state == connectivity.Shutdown as the only condition): a ClientConn in TransientFailure keeps re-dialling in the background, reconnects when the backend returns, and is never closed — connections are no longer 'reused per backend and dropped once the backend leaves the table'")
 		})
 	}
 	c.atLeast("C16.P5", "deletions from the connection pool by its janitor", n, 1)
+}
+
+func c16p5closes(j ssa.Instruction) bool {
+	jc := callCommon(j)
+	return jc != nil && strings.HasSuffix(calleeName(jc), "grpc.ClientConn).Close")
+}
+
+// c16p5closing: j closes a connection: directly, in what it runs synchronously, or in a goroutine it starts.
+func c16p5closing(j ssa.Instruction) bool {
+	if c16p5closes(j) {
+		return true
+	}
+	if g, ok := j.(*ssa.Go); ok {
+		for _, fn := range append(funcsOf(g.Call.Value), g.Call.StaticCallee()) {
+			if fn == nil {
+				continue
+			}
+			for _, h := range c16syncRegion(unwrap(fn)) {
+				if fnHas(h, c16p5closes) {
+					return true
+				}
+			}
+		}
+		return false
+	}
+	if _, ok := j.(*ssa.Call); ok {
+		return c16mayDo(j, c16p5closes)
+	}
+	return c16p5handoff(j)
+}
+
+var c16p5drain struct {
+	c      *Ctx
+	exists bool
+}
+
+// c16p5handoff: j puts the connection into a slice or sends it on a channel, and the repository closes connections it
+// takes out of such a collection: the sweep only collects under the lock, the closing is done afterwards (two-phase
+// janitor).
+func c16p5handoff(j ssa.Instruction) bool {
+	var v ssa.Value
+	switch x := j.(type) {
+	case *ssa.Store:
+		if _, ok := x.Addr.(*ssa.IndexAddr); ok {
+			v = x.Val
+		}
+	case *ssa.Send:
+		v = x.X
+	}
+	if v == nil || !holdsClientConn(v.Type(), 0) {
+		return false
+	}
+	c := c16cache.c
+	if c == nil {
+		return false
+	}
+	if c16p5drain.c != c {
+		c16p5drain.c, c16p5drain.exists = c, false
+		for _, f := range c.AllFns {
+			if !isRepoFn(f) || !c16grpcPkg(rootPkg(f)) {
+				continue
+			}
+			eachInstr(f, func(i ssa.Instruction) {
+				cc := callCommon(i)
+				if cc == nil || !c16p5closes(i) || len(cc.Args) == 0 {
+					return
+				}
+				if derives(cc.Args[0], func(x ssa.Value) bool {
+					switch y := x.(type) {
+					case *ssa.IndexAddr:
+						return holdsClientConn(deref(y.Type()), 0)
+					case *ssa.Index:
+						return holdsClientConn(y.Type(), 0)
+					case *ssa.UnOp:
+						return y.Op == token.ARROW && holdsClientConn(y.Type(), 0)
+					}
+					return false
+				}) {
+					c16p5drain.exists = true
+				}
+			})
+		}
+	}
+	return c16p5drain.exists
+}
+
+// c16p5shutdownEdge: the edge pred -> succ is taken only where a connectivity.State equals Shutdown.
+func c16p5shutdownEdge(pred, succ *ssa.BasicBlock) bool {
+	if len(pred.Succs) != 2 || len(pred.Instrs) == 0 {
+		return false
+	}
+	iff, ok := pred.Instrs[len(pred.Instrs)-1].(*ssa.If)
+	if !ok {
+		return false
+	}
+	for _, ft := range appendCondFacts(nil, iff.Cond, pred.Succs[0] == succ, 0) {
+		b, ok := ft.Cond.(*ssa.BinOp)
+		if !ok || !(b.Op == token.EQL && ft.Truth || b.Op == token.NEQ && !ft.Truth) {
+			continue
+		}
+		for _, side := range []ssa.Value{b.X, b.Y} {
+			if k, isK := side.(*ssa.Const); isK && strings.HasSuffix(typeStr(k.Type()), "connectivity.State") && k.Int64() == 4 {
+				return true
+			}
+		}
+	}
+	return false
+}
+
+// c16p5verdictCovered: every return of the predicate g that can yield verdict passes, from g's entry, a close (or the
+// start of a goroutine that closes) or an edge on which the connection is known to be shut down.
+func c16p5verdictCovered(g *ssa.Function, verdict bool) bool {
+	if g == nil || len(g.Blocks) == 0 {
+		return false
+	}
+	n, ok := 0, true
+	eachInstr(g, func(i ssa.Instruction) {
+		r, isR := i.(*ssa.Return)
+		if !isR || len(r.Results) != 1 {
+			return
+		}
+		if bv, isK := constBool(r.Results[0]); isK && bv != verdict {
+			return
+		}
+		n++
+		if c16p5reach(g.Blocks[0], 0, nil, r) {
+			ok = false
+		}
+	})
+	return ok && n > 0
+}
+
+// c16p5reach: at is reachable from instruction idx of block b without passing a close and without taking an edge on
+// which the connection is known to be shut down (head: the loop header of the sweep, where the next iteration starts).
+func c16p5reach(b *ssa.BasicBlock, idx int, head *ssa.BasicBlock, at ssa.Instruction) bool {
+	type item struct {
+		b   *ssa.BasicBlock
+		idx int
+	}
+	stack := []item{{b, idx}}
+	seenB := map[*ssa.BasicBlock]bool{}
+	for len(stack) > 0 {
+		it := stack[len(stack)-1]
+		stack = stack[:len(stack)-1]
+		blocked := false
+		for k := it.idx; k < len(it.b.Instrs); k++ {
+			if it.b.Instrs[k] == at {
+				return true
+			}
+			if c16p5closing(it.b.Instrs[k]) {
+				blocked = true
+				break
+			}
+		}
+		if blocked {
+			continue
+		}
+		for _, sx := range it.b.Succs {
+			if c16p5shutdownEdge(it.b, sx) || seenB[sx] || sx == head {
+				continue
+			}
+			seenB[sx] = true
+			stack = append(stack, item{sx, 0})
+		}
+	}
+	return false
+}
+
+// c16p5open: instruction at can be reached, within one iteration of the sweep, without passing a close and without taking
+// an edge on which the connection is known to be shut down. The iteration starts at the Next of the range over the pool
+// where that is in at's function; otherwise at's function is a per-entry helper: the walk starts at its entry and, if at
+// is reachable from there, goes on at the helper's call sites.
+func c16p5open(at ssa.Instruction, isPool func(ssa.Value) bool, depth int) bool {
+	f := at.Parent()
+	if f == nil || len(f.Blocks) == 0 {
+		return true
+	}
+	// the drop is decided by a per-entry predicate (dropIf(func(key, conn) bool {...})): what the predicate does on the
+	// way to the verdict under which the entry is dropped counts
+	for _, ft := range localFactsAt(at.Block()) {
+		call, ok := ft.Cond.(*ssa.Call)
+		if !ok || typeStr(call.Type().Underlying()) != "bool" {
+			continue
+		}
+		conn := false
+		for _, a := range call.Call.Args {
+			conn = conn || holdsClientConn(a.Type(), 0)
+		}
+		gs := c16syncCallees(call)
+		if !conn || len(gs) == 0 {
+			continue
+		}
+		covered := true
+		for _, g := range gs {
+			covered = covered && c16p5verdictCovered(g, ft.Truth)
+		}
+		if covered {
+			return false
+		}
+	}
+	var start ssa.Instruction
+	eachInstr(f, func(j ssa.Instruction) {
+		if nx, ok := j.(*ssa.Next); ok && dominatesInstr(j, at) {
+			if r, ok := nx.Iter.(*ssa.Range); ok && isPool(r.X) {
+				start = j
+			}
+		}
+	})
+	var open bool
+	if start != nil {
+		open = c16p5reach(start.Block(), instrIndex(start)+1, start.Block(), at)
+	} else {
+		open = c16p5reach(f.Blocks[0], 0, nil, at)
+	}
+	if !open || start != nil {
+		return open
+	}
+	// open from the helper's entry: it depends on how the helper is reached
+	var sites []ssa.Instruction
+	for _, s := range gSites[f] {
+		if _, isGo := s.(*ssa.Go); !isGo && s.Parent() != f {
+			sites = append(sites, s)
+		}
+	}
+	if dyn, _ := c16dynSites(f); len(dyn) > 0 {
+		for _, s := range dyn {
+			sites = append(sites, s)
+		}
+	}
+	if len(sites) == 0 || depth >= 3 {
+		return true
+	}
+	for _, s := range sites {
+		if c16p5open(s, isPool, depth+1) {
+			return true
+		}
+	}
+	return false
 }
 
 // holdsClientConn: t is *grpc.ClientConn or a (pointer to a) struct with such a field.
